@@ -11,7 +11,16 @@ PLAN = dict(
          "naive G1 of ref/sm9, pairing values taken from the library's bn256 through the hook) and (c) published as a SHA-256 digest that "
          "the driver compares across all seven configurations of the same case (any difference = config-mismatch). Because the outputs "
          "of all configurations are byte-identical when the digests agree, and every configuration verifies/decrypts its own artefacts, "
-         "acceptance of configuration A's artefacts by configuration B is implied. c10.keys: six key types x {raw, compressed, DER, "
+         "acceptance of configuration A's artefacts by configuration B is implied. The transcript ends with (i) REUSE HISTORIES on "
+         "key-exchange objects (the API doc neither promises nor forbids reuse; every step recomputes its state from its arguments): "
+         "initiator receives another session's well-formed response (refused) then the genuine one; one responder serving several "
+         "runs / a second initiator after an abandoned run; both peers reusing; roles swapped; steps repeated after error returns; "
+         "each with and without Destroy between runs and with/without confirmation - every run must equal the reference for ITS "
+         "messages; (ii) one master public key / one set of EncrypterOpts objects (package-level and privately constructed) / one "
+         "DecrypterOptsWithUID per user / one verifier key reused over changing uid, hid, mode, length; (iii) STRUCTURED values found by "
+         "a bounded reference search with the ephemeral scalar scripted: signatures whose h has one and two leading zero bytes and "
+         "whose S has a leading zero byte in x or y, C1 with a leading zero byte in x or y, run through every sign / verify / wrap / "
+         "encrypt entry point (h as *big.Int, fixed-width DER) and encoding round trip. c10.keys: six key types x {raw, compressed, DER, "
          "SEQUENCE (GmSSL layout), PEM} parse back to equal, working keys. c10.sound: per round, every single-byte substitution "
          "(^01, ^80, 00, FF) and every truncation of the DER signature, h, S, the ten ciphertexts (5 modes x raw/ASN.1), wrapped keys "
          "(raw/DER) and the four key-exchange messages, identity mutants excluded, expected verdicts from the reference accept set, "
